@@ -12,7 +12,8 @@
    Key paths never collide with temp-file names (C06_hex_keys_not_temp), which is what allows the
    model to keep temp files in a name space of their own. *)
 From Coq Require Import List NArith Bool.
-From Sccache Require Import Base.Sx Model.Lru Model.DiskCache Proofs.DiskCache.
+From Sccache Require Import Base.Sx Model.Lru Model.DiskCache Model.DiskTree Proofs.DiskCache Proofs.DiskTree.
+From Sccache Require Model.RoCache.
 Import ListNotations.
 Local Open Scope N_scope.
 
@@ -123,6 +124,59 @@ Theorem C06_hex_keys_not_temp :
 Proof. exact hex_keys_not_temp. Qed.
 Print Assumptions C06_hex_keys_not_temp.
 
+(* ---------- both stores of DiskCache over one tree (Model/DiskTree.v) ----------
+
+   DiskCache has a second LruDiskCache, the preprocessor-entry store, rooted at <root>/preprocessor —
+   INSIDE the tree the result store scans.  [texec (tstart c d ths) sched] runs calls on both stores
+   (TMain (TPut ..) / TMain (TGet ..) / TPpPut / TPpGet) under ANY schedule; [trestart c' t] is the
+   server dying in state t and a new one starting: every temp file of a call in flight, of either store,
+   is then an ordinary file <dir>/.sccachetmp<id> of the tree (C06_crash_leaves_temps), and it is
+   LruDiskCache::init's own test on the file name that must get rid of it. *)
+
+(* The server dies after ANY prefix of ANY schedule of calls on both stores; the new server (any
+   capacity) opens its two stores, in either order.  Then no file with a temp name is left ANYWHERE in
+   the tree, neither store indexes one, and each store's size is the sum of what it indexes. *)
+Theorem C06_crash_safe_tree :
+  forall (c : N) (d : disk) (ths : list tthread) (sched : list nat) (n : nat) (c' : N) (pp_first : bool),
+  let w := texec (tstart c d ths) (firstn n sched) in
+  let r := open_both pp_first (trestart c' (tws w)) in
+  (forall p, is_temp p = true -> alookup p (disk_files r) = None) /\
+  tmps (base r) = [] /\ pp_tmps r = [] /\
+  (forall p, is_temp p = true ->
+     alookup p (index (lru (base r))) = None /\ alookup p (index (pps r)) = None) /\
+  size (lru (base r)) = sum_sizes (index (lru (base r))) /\
+  size (pps r) = sum_sizes (index (pps r)).
+Proof. intros. apply restart_clean. Qed.
+Print Assumptions C06_crash_safe_tree.
+
+(* ... and the statement above is about something: in the tree the restarted server finds, the temp file
+   of every call in flight is listed under its temp name — at the root for the result store, under
+   preprocessor/ for the nested store. *)
+Theorem C06_crash_leaves_temps :
+  forall t : tst,
+  (forall h ino v, In (h, ino) (tmps (base t)) -> hlookup ino (inodes (base t)) = Some v ->
+     alookup (temp_name [] h) (d_files (materialise t)) <> None /\ is_temp (temp_name [] h) = true) /\
+  (forall h ino v, In (h, ino) (pp_tmps t) -> hlookup ino (inodes (base t)) = Some v ->
+     alookup (temp_name RoCache.pp_prefix h) (d_files (materialise t)) <> None /\
+     is_temp (temp_name RoCache.pp_prefix h) = true /\
+     RoCache.under_pp (temp_name RoCache.pp_prefix h) = true).
+Proof.
+  intros t. destruct (materialise_lists_temps t) as [A B]. split.
+  - intros h ino v H1 H2. split; [eapply A; eauto|apply temp_name_root_is_temp].
+  - intros h ino v H1 H2. split; [eapply B; eauto|]. split; [apply temp_name_pp_is_temp|reflexivity].
+Qed.
+Print Assumptions C06_crash_leaves_temps.
+
+(* With result-store calls only, the tree model is Model/DiskCache.v step for step, so the theorems
+   above about [exec (start c d ths) sched] are theorems about the tree model's result store. *)
+Theorem C06_tree_refines_main :
+  forall (c : N) (d : disk) (ths : list thread) (sched : list nat),
+  let w := exec (start c d ths) sched in
+  let tw := texec (tstart c d (map TMain ths)) sched in
+  base (tws tw) = ws w /\ twt tw = map TMain (wt w) /\ twlog tw = map EMain (wlog w).
+Proof. exact tree_refines_main. Qed.
+Print Assumptions C06_tree_refines_main.
+
 (* ---------- non-vacuity ---------- *)
 
 Definition kx : list N := [97; 49; 98; 50].          (* "a1b2" *)
@@ -180,3 +234,22 @@ Example reservation_refused :
   let w := exec (start 4 ex_disk ex_threads) [0; 1; 0; 0; 0]%nat in
   wt w = [TPutDone POk; TPutDone PTooLarge; TGet px] /\ visible (ws w) px = Some [1; 1].
 Proof. vm_compute. split; reflexivity. Qed.
+
+(* the nested store: a put into preprocessor/ dies after its write.  Its temp file is in the tree the
+   new server finds (under preprocessor/), the result store's scan reaches it there, and after the
+   restart nothing with a temp name is listed or indexed; the committed nested entry of an earlier put
+   IS indexed by the result store after the restart (S18: the nested store lives inside the scanned tree) *)
+Definition ppk : key := RoCache.pp_path [97; 98; 99; 100].       (* "preprocessor/a/b/c/abcd" *)
+Definition ex_tthreads : list tthread :=
+  [TPpPut ppk [[4; 4]]; TPpPut ppk [[6]; [6]]; TMain (TGet px)].
+
+Example nested_put_crash :
+  let w := texec (tstart 100 ex_disk ex_tthreads) [0; 0; 0; 2; 1; 1]%nat in
+  let d := materialise (tws w) in
+  let r := open_both false (trestart 100 (tws w)) in
+  pp_tmps (tws w) = [(1, 3)] /\
+  alookup (temp_name RoCache.pp_prefix 1) (d_files d) = Some (1, 13) /\
+  alookup (temp_name RoCache.pp_prefix 1) (disk_files r) = None /\
+  map fst (index (lru (base r))) = [ppk; px] /\ map fst (index (pps r)) = [ppk] /\
+  size (lru (base r)) = 4 /\ temp_count r = 0%nat.
+Proof. vm_compute. repeat split; reflexivity. Qed.
